@@ -33,6 +33,8 @@ type c16Job struct {
 	aligns []int
 	order  []int // order in which this goroutine renders the formats
 	reuse  bool  // one table for all renders of this job (state accumulates on it) instead of a fresh one per render
+	poolAt int
+	pool   []tabular.Cell // cells prepared once by the parent for the whole batch; a job takes by-value copies of them into its own tables
 }
 
 type c16Res struct {
@@ -147,8 +149,32 @@ func (w *yieldWriter) Write(p []byte) (int, error) {
 func c16Build(j *c16Job) tabular.Table {
 	t := tabular.New()
 	j.spec.Build(t)
+	if len(j.pool) > 0 {
+		// values of common provenance: every goroutine's table gets its own by-value copies of the same prepared
+		// cells (as a row of cells and as items), the way a program fills many tables from one set of constants
+		// (no wider than the table already is, so that every renderer still accepts it)
+		if n := j.spec.NCols(); n > 0 {
+			row := tabular.NewRow()
+			for k := 0; k < n && k < len(j.pool); k++ {
+				row.Add(j.pool[(k+j.poolAt)%len(j.pool)])
+			}
+			t.AddRow(row)
+			t.AddRowItems(j.pool[(j.poolAt+3)%len(j.pool)])
+		}
+	}
 	applyAligns(t, j.aligns)
 	return t
+}
+
+// c16Pool prepares the cells shared (by value) by the jobs of one batch.
+func c16Pool(r *gen.R) []tabular.Cell {
+	texts := []string{"pooled", "two\nlines", "\u4e16\u754c wide", "", r.Word()}
+	var out []tabular.Cell
+	for _, s := range texts {
+		out = append(out, tabular.NewCell(s))
+	}
+	out = append(out, tabular.NewCell(42), tabular.NewCell(&gen.PS_0{S: "pooled stringer"}))
+	return out
 }
 
 func c16Run(c *Ctx, i int, r *gen.R) {
@@ -159,6 +185,7 @@ func c16Run(c *Ctx, i int, r *gen.R) {
 	}
 	formats := c16Formats()
 	jobs := make([]*c16Job, G)
+	pool := c16Pool(r)
 	for g := range jobs {
 		spec := r.Table(gen.TableOpts{MaxCols: 4, MaxRows: 5, ZeroHeaderOK: true, MinCols: 0, Noise: gen.NoiseSkipable | gen.NoiseAlign,
 			Item: func(r *gen.R) gen.ItemSpec {
@@ -192,6 +219,9 @@ func c16Run(c *Ctx, i int, r *gen.R) {
 			j.aligns[k] = r.Intn(4)
 		}
 		_ = align.Left
+		if r.Chance(2, 3) {
+			j.pool, j.poolAt = pool, r.Intn(len(pool))
+		}
 		jobs[g] = j
 	}
 	desc := map[string]interface{}{"goroutines": G, "formats": len(formats), "gomaxprocs": runtime.GOMAXPROCS(0)}
@@ -284,7 +314,7 @@ func init() {
 		Level:  "exploration",
 		Race:   true,
 		Shards: raceShards,
-		Rule: "built with -race; shards run at GOMAXPROCS = all cores, 2, 4, 1. One case = one barrier-released batch of G goroutines (G cycles through 2, 8, 16, 32, 64), each owning a random table spec (as in C10, with alignments and occasional size-declaring items) which it builds and renders in all 17 formats (csv, json, markdown, html twice through one wrapper with caption/generator/context, auto markdown, text under the six built-in decorations, auto utf8-double, and json/csv/markdown/html/text through RenderTo into a writer that yields the processor on every Write - the caller's writer is the library's one suspension point) in a goroutine-specific order - half of the goroutines on one table of their own for all renders (so that state accumulates on it), the others on a freshly built table per render -, with property traffic on its own table, column 0 and first cell before every render (three keys in rotating order, read back after the render and compared like the output); a sixth of the tables hold an item the JSON encoder refuses, so that renders fail part-way during the batch; while 2 background goroutines read RegisteredDecorationNames/Named/auto.ListStyles in a loop. After the batch the same specs are built and rendered alone to obtain reference bytes (afterwards, so that grow-only process-wide state is first touched concurrently); 1/25 of the cells are 81-400 characters wide; every concurrent output must equal its reference. " +
+		Rule: "built with -race; shards run at GOMAXPROCS = all cores, 2, 4, 1. One case = one barrier-released batch of G goroutines (G cycles through 2, 8, 16, 32, 64), each owning a random table spec (as in C10, with alignments and occasional size-declaring items) which it builds and renders in all 17 formats (csv, json, markdown, html twice through one wrapper with caption/generator/context, auto markdown, text under the six built-in decorations, auto utf8-double, and json/csv/markdown/html/text through RenderTo into a writer that yields the processor on every Write - the caller's writer is the library's one suspension point) in a goroutine-specific order - half of the goroutines on one table of their own for all renders (so that state accumulates on it), the others on a freshly built table per render -, with property traffic on its own table, column 0 and first cell before every render (three keys in rotating order, read back after the render and compared like the output); two thirds of the tables also take a row of by-value copies of up to 7 cells the parent prepared once per batch (values of common provenance: each table owns its copies), and the same cells as items; a sixth of the tables hold an item the JSON encoder refuses, so that renders fail part-way during the batch; while 2 background goroutines read RegisteredDecorationNames/Named/auto.ListStyles in a loop. After the batch the same specs are built and rendered alone to obtain reference bytes (afterwards, so that grow-only process-wide state is first touched concurrently); 1/25 of the cells are 81-400 characters wide; every concurrent output must equal its reference. " +
 			"distinct_nontrivial counts distinct interleaving signatures (global completion order of the renders by goroutine id). The race detector's log is parsed by the parent; every report with a tabular frame is a violation; a fatal runtime error in the child is a violation.",
 		Assumptions: []string{
 			"each goroutine owns its tables and wrappers; sharing one table or wrapper between goroutines is out of scope (documented as unsupported for HTMLTable with a generator context)",
